@@ -160,6 +160,15 @@ def _arms(e: ast.expr) -> list[ast.expr]:
     return _arms(e.body) + _arms(e.orelse) if isinstance(e, ast.IfExp) else [e]
 
 
+def _fold_parts(c: ast.AST | None) -> tuple[ast.expr, ast.expr, ast.expr] | None:
+    """(step function, sequence, initial value) of a left fold `reduce(step, sequence, initial)`: what
+    `acc = initial; for item in sequence: acc = step(acc, item)` leaves in acc"""
+    if isinstance(c, ast.Call) and call_name(c).rsplit(".", 1)[-1] == "reduce" and not c.keywords and len(c.args) == 3 \
+            and not any(isinstance(a, ast.Starred) for a in c.args) and isinstance(c.args[0], (ast.Name, ast.Attribute)):
+        return c.args[0], c.args[1], c.args[2]
+    return None
+
+
 class _Unwalrus(ast.NodeTransformer):
     def visit_NamedExpr(self, n: ast.NamedExpr) -> ast.AST:
         return ast.copy_location(ast.Name(id=n.target.id, ctx=ast.Load()), n.target)
@@ -201,7 +210,8 @@ class Helpers:
     sits in their base class, in another module), `Name.attr` through whatever Name resolves to.  Functions with a role of their own
     (builders, convert_value, error constructors) are never helpers.  A helper whose name starts with `_` is walked in place wherever it
     is called; any other function only where it is handed the value that is being followed (the declared default, the schema carrying
-    it, something derived from the value under conversion).  Generators are kept apart: they are walked where they are iterated."""
+    it, something derived from the value under conversion).  Generators are kept apart: they are walked where they are iterated.
+    The step function of a left fold (`reduce(step, xs, init)`) is what the fold calls, once per element."""
 
     def __init__(self, ix: Any, f: Any, owner: Any = None, depth: int = 3, roles: frozenset[str] = frozenset()) -> None:
         self.targets: dict[int, tuple[Any, bool]] = {}       # id(call node) -> (function, private?)
@@ -218,7 +228,12 @@ class Helpers:
             nxt: list[Any] = []
             for g in frontier:
                 for c in calls_in(g.node):
-                    h = self._resolve(ix, c, g, owner, nested, roles)
+                    fold = _fold_parts(c)
+                    if fold is not None:     # reduce(step, xs, init) calls step(acc, x): the call goes to the step function
+                        c_step = ast.copy_location(ast.Call(func=fold[0], args=[], keywords=[]), c)
+                        h = self._resolve(ix, c_step, g, owner, nested, roles)
+                    else:
+                        h = self._resolve(ix, c, g, owner, nested, roles)
                     if h is None or h.qual == f.qual or isinstance(h.node, ast.AsyncFunctionDef):
                         continue
                     self.targets[id(c)] = (h, h.name.startswith("_") and not h.name.startswith("__"))
@@ -376,6 +391,10 @@ class Paths:
         self.fn = fn
         a = fn.args
         self.params = {x.arg for x in [*a.posonlyargs, *a.args, *a.kwonlyargs]}
+        self.varargs = {a.vararg.arg} if a.vararg is not None else set()
+        self.iterated: list[tuple[ast.expr, tuple[str, str | None]]] = []   # (what a loop / comprehension / fold ran over, where that
+        #                                                                     sequence comes from) for every one whose origin is known
+        self._folds: dict[int, list[ast.stmt]] = {}   # statement whose value is a left fold -> the loop it stands for
         self.source = source or (lambda n: False)
         self.source_nonnull = source_nonnull
         self.helpers = helpers
@@ -662,6 +681,9 @@ class Paths:
         assigns continues each of the helper's returning paths with `return <what was returned>` / `<targets> = <what was returned>`
         (assignments: _assign)"""
         value = getattr(n, "value", None) if isinstance(n, (ast.Assign, ast.AnnAssign, ast.Return, ast.Expr)) else None
+        unfolded = self._unfold(n, value) if depth < 4 else None
+        if unfolded is not None:     # x = reduce(step, xs, init)  is  acc = init; for item in xs: acc = step(acc, item); x = acc
+            return self._block(unfolded, [s], loop)
         if isinstance(n, ast.Return) and isinstance(value, ast.IfExp) and depth < 4:   # return A if T else B  is  if T: return A  else: return B
             t, f = self._branch(value.test, s)
             out = []
@@ -714,6 +736,32 @@ class Paths:
                 out += self._simple(n2, s2, loop, depth + 1)
         return out
 
+    def _unfold(self, n: ast.stmt, value: ast.expr | None) -> list[ast.stmt] | None:
+        """the statements a statement whose value is a left fold over a function of the region stands for:
+        `acc = init`, `for item in xs: acc = step(acc, item)`, the statement itself with acc for its value.  The call step(acc, item)
+        stands for the fold (it goes where Helpers found the fold's step function to be), so the step is walked in place like any
+        helper, once per element, in the order of xs"""
+        fold = _fold_parts(value)
+        if fold is None or self.helpers is None or self.oid(value) not in self.helpers.targets:
+            return None
+        if id(n) not in self._folds:
+            step, xs, init = fold
+            k = len(self._folds) + 1
+            acc, item = f"acc__fold{k}", f"item__fold{k}"
+            call = ast.Call(func=step, args=[ast.Name(id=acc, ctx=ast.Load()), ast.Name(id=item, ctx=ast.Load())], keywords=[])
+            first = ast.Assign(targets=[ast.Name(id=acc, ctx=ast.Store())], value=init)
+            loop_ = ast.For(target=ast.Name(id=item, ctx=ast.Store()), iter=xs, orelse=[],
+                            body=[ast.Assign(targets=[ast.Name(id=acc, ctx=ast.Store())], value=call)])
+            last = copy.copy(n)
+            last.value = ast.Name(id=acc, ctx=ast.Load())
+            body = [self._made(x, n) for x in (first, loop_, last)]
+            self._orig[id(call)] = self.origin(value)
+            self._orig[id(last)] = self.origin(n)
+            for x in (first, loop_.body[0]):
+                self._synth.add(id(x))
+            self._folds[id(n)] = body
+        return self._folds[id(n)]
+
     def _leaf(self, n: ast.stmt, s: PState, loop: dict | None) -> list[PState]:
         self.records.append((n, s))
         for c in calls_in(n):
@@ -763,6 +811,8 @@ class Paths:
         if self.helpers is None:
             return None
         h, private = self.helpers.targets.get(self.oid(c), (None, False))
+        if h is not None and _fold_parts(c) is not None:
+            return None     # the fold itself: its step function is called by the loop the fold stands for (_unfold)
         if h is None or h.node is self.fn or h.qual in self._active or len(self._active) >= 3 or h.qual in self.helpers.generators:
             return None
         if not private and not (s is not None and any(self._followed(a, s) for a in [*c.args, *[kw.value for kw in c.keywords]])):
@@ -1165,6 +1215,8 @@ class Paths:
                 return s.seq[e.id]
             if e.id in s.means:
                 return self._domain(s.means[e.id], s, depth + 1)
+            if plain and e.id in self.varargs and e.id not in s.kind:     # *args, never re-bound
+                return (e.id, None)
             return (e.id, None) if plain and s.kind.get(e.id, ("other", None))[0] == "param" and e.id in self.params else None
         if isinstance(e, ast.Attribute):
             return (norm(e), None) if plain and not any(isinstance(x, (ast.Call, ast.Subscript)) for x in ast.walk(e)) else None
@@ -1218,9 +1270,10 @@ class Paths:
         `at` the loop is entered in) comes from; of enumerate(X): the second of the pair is an element of X"""
         if isinstance(it, ast.Call) and call_name(it) == "enumerate" and it.args and isinstance(target, (ast.Tuple, ast.List)) and len(target.elts) == 2:
             target, it = target.elts[1], it.args[0]
-        if isinstance(target, ast.Name):
-            d = self._domain(it, at)
-            if d is not None:
+        d = self._domain(it, at)
+        if d is not None:
+            self.iterated.append((self.origin(it), d))
+            if isinstance(target, ast.Name):
                 s.elemof[target.id] = d
 
     def _made_as(self, e: ast.expr | None, s: PState) -> str | None:
@@ -1582,13 +1635,18 @@ def run(rep: Report, ctx: Any) -> str:
     rep.rule("R13.4", "defaults are re-validated on the other routes: on every path of _property_from_ref that reaches the evolve() "
                       "with a wrapper schema the default is the referenced class's tested conversion of parent.default; "
                       "_merge_common_attributes converts the override with the merged class on every path, unions try members")
-    rep.rule("R13.5", "to_string returns default.python_code on every path on which a default exists")
+    rep.rule("R13.5", "to_string returns default.python_code on every path on which a default exists (every template that prints a "
+                      "declaration through to_string() - the model class and the endpoint signature - has a hole that was followed into it; "
+                      "that the names the printed code uses are imported where it is printed is import closure: C01)")
     rep.rule("R13.7", "the declared default reaches the builder: wherever property_from_data or a builder hands the property on to (another) "
                       "builder and returns what that builds, the declared default is handed on with it - the builder's `default` argument "
                       "is the declared default itself, its `data` argument the schema itself or a copy that keeps its default")
     rep.rule("R13.6", "allOf: when two members declare the same property the later declaration's default wins: the incoming property "
                       "reaches every _merge_common_attributes call as the last override (roles followed through the calls of the merge "
-                      "module), overrides are applied in argument order and the override's converted default is preferred")
+                      "module); whatever runs over the overrides (a loop, a comprehension, a left fold `reduce(step, overrides, base)`, in "
+                      "the function or a helper walked in place) runs over the parameter itself or a derivation that keeps all its elements "
+                      "in their order; wherever the merged property gets its default the accumulated default is only the last alternative "
+                      "after the override's converted default, and is taken alone only on paths where the override's default was found absent")
 
     rep.rule("R13.10", "a kind whose convert_value asks the properties held in one of its own fields (a union its members) asks them as they "
                        "are declared: the sequence whose elements' convert_value is called with the value is that field itself or a "
@@ -1903,9 +1961,17 @@ def run(rep: Report, ctx: Any) -> str:
     # the templates emit that text: holes of to_string() emissions that carry everything a Value.python_code may hold
     # (pasted labels are R13.3's business and may be transformed on the way, so they do not identify the hole)
     pc_labels = {l for pc, _ in last_.values() for l in pc.labels if not (l in (RAW, UNKNOWN, RAW_NONSTR) or is_esc(l))}
-    n_ts = sum(1 for e in ji.emissions.values() if "to_string()" in e.expr and pc_labels and pc_labels <= e.labels)
+    printed = [e for e in ji.emissions.values() if "to_string()" in e.expr]
+    resolved = [e for e in printed if pc_labels and pc_labels <= e.labels]
+    n_ts = len(resolved)
+    # counted by role: the templates that print a declaration through to_string() (class attributes, function signatures) - each of
+    # them has a hole that was followed into to_string and carries what python_code may hold, and there are the two kinds of host
+    hosts, hosts_resolved = {e.template for e in printed}, {e.template for e in resolved}
     if ok:
-        rep.floor("to_string_default_emissions", n_ts, 3)
+        rep.floor("to_string_default_emissions", n_ts, 2)
+        rep.require(hosts <= hosts_resolved, "the default printed by to_string() could not be followed into the declaration(s) of "
+                    f"{sorted(hosts - hosts_resolved)} (what the template hands to to_string() is not known)")
+        rep.floor("to_string_default_hosts", len(hosts_resolved), 2)
     else:
         rep.indexed["to_string_default_emissions"] = n_ts
     rep.not_decided.append("value equality of the evaluated default with the document's value; leniency inside accepting branches")
@@ -2129,12 +2195,22 @@ def _override_order(rep: Report, ix: Any, sink: Any, pm: Paths, m_evolves: list)
     # inside: overrides applied in argument order, the override's converted default preferred over the accumulated one
     va = sink.node.args.vararg.arg if sink.node.args.vararg else None
     rep.require(va, "*overrides parameter of _merge_common_attributes")
-    loops = [n for n in ast.walk(sink.node) if isinstance(n, (ast.For, ast.comprehension)) and va in names_in(n.iter)]
+    # what runs over the overrides (a loop, a comprehension, a fold; in the function or in a helper walked in place) runs over all of
+    # them in the order they were given: the sequence it iterates is the parameter itself or a derivation that keeps every element
+    # in its place (Paths._domain)
+    loops = [(e, d) for e, d in pm.iterated if d[0] == va]
     rep.require(loops, "loop over the overrides in _merge_common_attributes")
-    in_order = all(norm(n.iter) in (va, f"enumerate({va})") for n in loops)
-    rep.check(in_order, "R13.6", "_merge_common_attributes::applied-in-order", "the overrides are not applied in argument order",
-              where(sink, loops[0] if isinstance(loops[0], ast.stmt) else sink.node), lhs=[norm(n.iter) for n in loops], rhs=f"for _ in {va}")
-    for n, recv_, d, st in m_evolves[:1]:
+    out_of_order = sorted({f"{norm(e)[:50]}: {d[1]}" for e, d in loops if d[1] is not None})
+    rep.check(not out_of_order, "R13.6", "_merge_common_attributes::applied-in-order", "the overrides are not applied in argument order",
+              where(sink, next((e for e, d in loops if d[1] is not None), loops[0][0])), lhs=out_of_order or sorted({norm(e)[:50] for e, _ in loops}),
+              rhs=f"for _ in {va} (all of them, in that order)")
+    # wherever the merged property gets its default: the accumulated default is only the fallback of the override's converted default -
+    # it is the last alternative of the choice and occurs nowhere else in it; it is taken alone only on paths on which the default
+    # that is offered for conversion was found to be absent
+    offered = {norm(x) for calls in pm.walked.values() for w in calls for a in w.args for x in ast.walk(a)
+               if isinstance(x, ast.Attribute) and x.attr == "default"}
+    verdicts: list[tuple[bool, ast.AST, str]] = []
+    for n, recv_, d, st in m_evolves:
         acc = f"{norm(recv_)}.default"
         d = pm.meaning(d, st)
         ok = False
@@ -2149,9 +2225,15 @@ def _override_order(rep: Report, ix: Any, sink: Any, pm: Paths, m_evolves: list)
             present_when_true = (is_none_test and neg) or (not is_none_test and not neg)
             ok = acc not in subject and ((present_when_true and norm(d.orelse) == acc and norm(d.body) != acc) or
                                          (not present_when_true and norm(d.body) == acc and norm(d.orelse) != acc))
-        rep.check(ok, "R13.6", "_merge_common_attributes::override-preferred",
+        elif norm(d) == acc:
+            ok = any(st.facts.get(f"{o} is None") is True or st.facts.get(o) is False for o in offered if o != acc)
+        verdicts.append((ok, n, role_anon(d, sink.node) if pm.origin(n) is n else norm(d)))
+    if verdicts:
+        bad_n = next((n for ok, n, _ in verdicts if not ok), verdicts[0][1])
+        rep.check(all(ok for ok, _, _ in verdicts), "R13.6", "_merge_common_attributes::override-preferred",
                   "the accumulated default is not the fallback of the override's default (an earlier declaration's default wins or is lost)",
-                  where(sink, n), lhs=role_anon(d, sink.node), rhs=f"<override's converted default> or {acc}")
+                  where(sink, bad_n), lhs=sorted({t for ok, _, t in verdicts if not ok}) or sorted({t for _, _, t in verdicts}),
+                  rhs="<override's converted default> or <accumulated>.default; <accumulated>.default alone only where the override has none")
 
 
 def _outside_calls(ix: Any, entry: Any, mod: Any) -> list[tuple[ast.Call, Any]]:
